@@ -73,3 +73,36 @@ def gen_client_cases():
         out.append({"self": _rec("ClientC2Data", output=_optb(stream), metadata=_optb(None), id=_optb(None)),
                     "pkts": {"list": [{"tuple": [_b(c), _b(s)]} for c, s in pk]}})
     return out
+
+
+def _rsa(bits=1024):
+    import os
+    from Crypto.PublicKey import RSA
+    here = os.path.dirname(os.path.abspath(globals().get("__file__", "/verif/contracts/spec/gens.py")))
+    return RSA.import_key(open(os.path.join("/verif/contracts/spec", f"test_rsa_{bits}.pem"), "rb").read())
+
+
+def _pkcs1_encrypt_deterministic(pub, msg, seed=1):
+    """PKCS#1 v1.5 type 2 encryption with a deterministic non-zero padding string (test vectors)"""
+    import random
+    k = pub.size_in_bytes()
+    rnd = random.Random(seed)
+    ps = bytes(rnd.randrange(1, 256) for _ in range(k - len(msg) - 3))
+    em = b"\x00\x02" + ps + b"\x00" + msg
+    return pow(int.from_bytes(em, "big"), pub.e, pub.n).to_bytes(k, "big")
+
+
+def gen_decrypt_metadata_cases():
+    out = []
+    for bits in (1024,):
+        priv = _rsa(bits)
+        pub = priv.publickey()
+        k = pub.size_in_bytes()
+        fixed = bytes.fromhex("0000beef") + (51 + 5).to_bytes(4, "big") + bytes(range(16)) + bytes(35)
+        msgs = [fixed + b"hello", fixed[:59], b"abc", b"", bytes(59), fixed + b"he",
+                bytes.fromhex("0000beef") + (51 + 40).to_bytes(4, "big") + bytes(51) + b"short"]
+        blobs = [_pkcs1_encrypt_deterministic(pub, m) for m in msgs]
+        blobs += [bytes(k), b"\x01" * (k - 1), b"\xff" * k, b""]
+        for b_ in blobs:
+            out.append({"encrypted_metadata": _b(b_), "private_key": {"rsa_key": bits}})
+    return out
